@@ -86,7 +86,10 @@ theorem clone_step_vstep {f0 g g2 : Forest} {cur x : Nat} {v : Value} (b : Base 
   · intro q hq
     unfold afterOldSite at hq
     rw [prevSibling_none_of_root hroot, removeConsolidate_none_left] at hq
-    exact b1.fresh_kid hcur (lastChild_parent w1 hq)
+    unfold selfPrev at hq
+    split at hq
+    · rw [prevSibling_none_of_root hroot] at hq; cases hq
+    · exact b1.fresh_kid hcur (lastChild_parent w1 hq)
 
 mutual
   theorem cloneInto_vstep (f0 : Forest) : ∀ (src : HTree) (g : Forest) (cur : Nat), g.W →
